@@ -288,7 +288,8 @@ fn run(line: &str) -> String {
     let mbase = t.u64();
     let msize = t.u64();
     let mut tok = t.str();
-    // third field: 0 = the supplier does not know the module, 1 = it has the symbol file, 2 = it has a file that does not parse
+    // third field: 0 = the supplier does not know the module, 1 = it has the symbol file, 2 = it has a file that does not parse,
+    // 3 = it has ANOTHER symbol file (a module must be symbolicated from its own file, not from one cached for another module)
     let mut extra: Vec<(u64, u64, u8)> = vec![];
     if tok == "X" {
         let k = t.usize();
@@ -320,6 +321,9 @@ fn run(line: &str) -> String {
             symbols.insert(n, text.clone());
         } else if hs == 2 {
             symbols.insert(n, CORRUPT.to_string());
+        } else if hs == 3 {
+            // another, valid symbol file: one FUNC f9999 covering [0, 0xfffffffe] (the model's Driver.alt_table)
+            symbols.insert(n, format!("MODULE Linux x86_64 ABCD1234 m1\nFUNC 0 ffffffff 0 {}\n", name('f', 9999)));
         }
     }
     assert!(SymbolFile::from_bytes(CORRUPT.as_bytes()).is_err(), "the corrupt symbol file parses");
